@@ -339,7 +339,7 @@ func c18NutsDeactivated(r *Report) {
 	m := p.Func(ds, "", "matches")
 	r.Gate(Gate{ID: "C18.deactivated.nuts-store.matches-refuses-deactivated", Fn: m, Effect: ReturnsBool(0, true),
 		Check: Check{Desc: "metadata.Deactivated is false", Pass: IsFalse, Values: fieldLoads("documentMetadata", "Deactivated")},
-		Alt: []Check{Check{Desc: "resolveMetadata.AllowDeactivated", Pass: IsTrue, Values: fieldLoads("ResolveMetadata", "AllowDeactivated")}}})
+		Alt:   []Check{Check{Desc: "resolveMetadata.AllowDeactivated", Pass: IsTrue, Values: fieldLoads("ResolveMetadata", "AllowDeactivated")}}})
 	// asking for the latest version of a deactivated DID fails instead of returning an older active version
 	r.Refuse(Refuse{ID: "C18.deactivated.nuts-store.latest-fails", Fn: cl, Cond: CallCheck(Fn(ds, "", "latestNonDeactivatedRequested"), -1, IsTrue)})
 }
